@@ -64,4 +64,8 @@ PROPS = {
         "level": "exploration", "quick_s": 35, "thorough_s": 900, "thorough_seeds": 4,
         "rule": "T1 -> exclusive gateway reading T1's declared result (variable or data object) -> T2|T3 whose properties reference T1's results; answer history of T1: 1..3 Do calls sequential or from concurrent goroutines, declared + undeclared result fields and data outputs, error without handler / skip / exit / retry(n in 0..3) with success on attempt j or never, handler decision optionally late, never answered + task time-out, optional definition-level retries attribute; oracle: token game with error modes + call/return stamps of every Do + first-answer linearisation + visibility to the next task; distinct = schedule hash; non-trivial = a context switch",
     },
+    "C11": {
+        "level": "exploration", "quick_s": 35, "thorough_s": 900, "thorough_seeds": 4,
+        "rule": "1..3 intermediate catch events (signal / message) in sequence, in parallel, or behind a task, optionally with a catch + throw event on a branch that is never taken; event histories of 0..8 events (matching, non-matching, repeated) + the awaited ones, delivered one at a time at quiescent moments interleaved with task answers (exact listener model) or from their own goroutines at arbitrary trace counts (safety bounds only); every ConsumeEvent call is stamped; distinct = schedule hash; non-trivial = at least one event delivered and a context switch",
+    },
 }
